@@ -452,6 +452,10 @@ class Process:
 
     def _raise_if_pid_reused(self):
         """Raises NoSuchProcess in case process PID has been reused."""
+        if self._gone and not self._pid_reused:
+            # is_running() already found the process gone: the PID may
+            # belong to another process by now.
+            raise NoSuchProcess(self.pid, self._name)
         if self._pid_reused or (not self.is_running() and self._pid_reused):
             # We may directly raise NSP in here already if PID is just
             # not running, but I prefer NSP to be raised naturally by
